@@ -150,6 +150,7 @@ type Event struct {
 	AtStmt  bool      `json:"atStmt"` // the error line is the first line of a statement
 	Named   []string  `json:"named"`
 	Err     string    `json:"err"` // error text, ASCII only
+	Ext     string    `json:"ext"` // name (in YangStmt.tla ExtFns) of the extension cardinality function this parse was given
 	Text    string    `json:"-"`
 }
 
@@ -157,6 +158,16 @@ type Event struct {
 type History struct {
 	Label []string    `json:"label"`
 	Seq   []*ysm.Stmt `json:"seq"`
+	// histories of parses with different extension cardinality functions (third argument of parse.Parse)
+	Blocks []struct {
+		Ext   string      `json:"ext"`
+		Trees []*ysm.Stmt `json:"trees"`
+	} `json:"blocks"` // the trees parsed under each function
+	Orders [][]string `json:"orders"` // every order in which the blocks are run
+	Exts   []struct {
+		Name  string        `json:"name"`
+		Cells []ysm.ExtCell `json:"cells"`
+	} `json:"exts"`
 }
 
 type Base struct {
@@ -299,7 +310,7 @@ func record(args []string) {
 			n++
 			ev := Event{ID: n, Mut: name, Tree: t, ParseOk: o.ParseOk, Ok: o.ParseOk && o.CompileOk, Located: o.Located,
 				ErrPath: o.ErrPathSeq, AtStmt: o.ErrPath != "-", Named: o.Named, Text: r.Text,
-				Skipped: o.ParseOk && risky}
+				Skipped: o.ParseOk && risky, Ext: "empty"}
 			if o.Panic != "" {
 				ev.Err = ascii("PANIC " + o.Panic)
 				ev.Panic = true
@@ -348,7 +359,7 @@ func record(args []string) {
 				n++
 				ev := Event{ID: n, Mut: fmt.Sprintf("hist:%s:%d.%d/%d", strings.Join(h.Label, ","), nh, k+1, len(h.Seq)), Tree: t,
 					ParseOk: o.ParseOk, Ok: o.ParseOk && o.CompileOk, Located: o.Located,
-					ErrPath: o.ErrPathSeq, AtStmt: o.ErrPath != "-", Named: o.Named, Skipped: o.ParseOk && risky}
+					ErrPath: o.ErrPathSeq, AtStmt: o.ErrPath != "-", Named: o.Named, Skipped: o.ParseOk && risky, Ext: "empty"}
 				if o.Panic != "" {
 					ev.Err = ascii("PANIC " + o.Panic)
 					ev.Panic = true
@@ -360,6 +371,44 @@ func record(args []string) {
 				}
 				if err := enc.Encode(ev); err != nil {
 					return err
+				}
+			}
+			// parses with different extension cardinality functions, one after the other in this process;
+			// what is checked of an extension statement is checked by the parser, so these are parse-only
+			exts := map[string]*ysm.ExtCard{}
+			for _, x := range h.Exts {
+				exts[x.Name] = &ysm.ExtCard{Nil: x.Name == "nil", Cells: x.Cells}
+			}
+			blocks := map[string][]*ysm.Stmt{}
+			for _, b := range h.Blocks {
+				blocks[b.Ext] = b.Trees
+			}
+			for oi, order := range h.Orders {
+				for bi, name := range order {
+					ext, ok := exts[name]
+					if !ok {
+						return fmt.Errorf("history %d: unknown extension function %q", nh, name)
+					}
+					for k, tr := range blocks[name] {
+						r := ysm.Render(tr)
+						o := ysm.RunExt(r, false, nil, nil, ext)
+						n++
+						ev := Event{ID: n, Mut: fmt.Sprintf("xhist:%s:order %d (%s) block %d tree %d", name, oi+1, strings.Join(order, ">"), bi+1, k+1), Tree: tr,
+							ParseOk: o.ParseOk, Ok: o.ParseOk, Located: o.Located, ErrPath: o.ErrPathSeq, AtStmt: o.ErrPath != "-",
+							Named: o.Named, Ext: name}
+						if o.Panic != "" {
+							ev.Err = ascii("PANIC " + o.Panic)
+							ev.Panic = true
+						} else {
+							ev.Err = ascii(o.ParseErr)
+						}
+						if ev.ErrPath == nil {
+							ev.ErrPath = []int{}
+						}
+						if err := enc.Encode(ev); err != nil {
+							return err
+						}
+					}
 				}
 			}
 			return nil
